@@ -52,7 +52,22 @@ fn describe<T: SwiftMessageBody>(m: &SwiftMessage<T>) -> Value {
 
 fn typed<T: SwiftMessageBody>(raw: &str) -> Value {
     match SwiftParser::parse::<T>(raw) {
-        Ok(m) => describe(&m),
+        Ok(m) => {
+            let mut d = describe(&m);
+            // message-level round trip (C02): parse the serialisation again
+            let out = m.to_mt_message();
+            let (ok2, eq2, fix2, err2) = match SwiftParser::parse::<T>(&out) {
+                Ok(m2) => (true, serde_json::to_value(&m2).ok() == serde_json::to_value(&m).ok(), m2.to_mt_message() == out, None),
+                Err(e) => (false, false, false, Some(e.to_string())),
+            };
+            if let Some(o) = d.as_object_mut() {
+                o.insert("again_ok".into(), json!(ok2));
+                o.insert("again_equal".into(), json!(eq2));
+                o.insert("again_fixpoint".into(), json!(fix2));
+                o.insert("again_err".into(), json!(err2));
+            }
+            d
+        }
         Err(e) => err_json(&e),
     }
 }
@@ -218,11 +233,27 @@ pub fn run(rt: &tokio::runtime::Runtime, cols: &[&str]) -> Value {
                         let ser = v.to_swift_string();
                         let j = serde_json::to_value(&v).unwrap_or(Value::Null);
                         // re-parse what was printed (field-level round trip)
-                        let body = match ser.strip_prefix(':').and_then(|s| s.find(':').map(|i| (&s[..i], &s[i + 1..]))) {
+                        let split = ser.strip_prefix(':').and_then(|s| s.find(':').map(|i| (s[..i].to_string(), s[i + 1..].to_string())));
+                        let body = match &split {
                             Some((tag, c)) => json!({"tag": tag, "content": c}),
                             None => Value::Null,
                         };
-                        json!({"ok": true, "ser": ser, "json": j, "printed": body, "variant_tag": v.get_variant_tag()})
+                        // field-level round trip: re-parse the printed content the way the message parser
+                        // would (plain types: parse; families: parse_with_variant with the printed tag's letter)
+                        let again = match (&split, letter) {
+                            (Some((_, c)), None) => Some(<T as SwiftField>::parse(c)),
+                            (Some((tag, c)), Some(_)) => {
+                                let l: String = tag.chars().skip_while(|ch| ch.is_ascii_digit()).collect();
+                                Some(<T as SwiftField>::parse_with_variant(c, Some(&l), None))
+                            }
+                            _ => None,
+                        };
+                        let (again_ok, again_eq, again_ser) = match again {
+                            Some(Ok(v2)) => (true, serde_json::to_value(&v2).ok() == Some(j.clone()), v2.to_swift_string() == ser),
+                            _ => (false, false, false),
+                        };
+                        json!({"ok": true, "ser": ser, "json": j, "printed": body, "variant_tag": v.get_variant_tag(),
+                               "again_ok": again_ok, "again_equal": again_eq, "again_ser_equal": again_ser})
                     }
                     Err(e) => err_json(&e),
                 }
